@@ -8,6 +8,8 @@ from .. import astq
 from ..core import AnalysisError
 from ..minieval import Interp, Obj, Raises
 
+from . import common
+
 LEVEL = 'other'
 EXPLANATION = (
     'Static analysis (the export definitions folded over mock models). BaseModel.get_data, Frame.get_data and its helpers, '
@@ -155,3 +157,8 @@ def run(ctx, rep):
             if not ok:
                 rep.finding(R1, f'C20.R1/store/{attr}/{mod}:{qn}', m.loc(mod, st), qn, f'replaces a frame\'s {attr} store outside Frame.__init__')
     rep.floor('C20.R1', 'store assignments', n, 2)
+    R4 = rep.rule('C20.R4', 'Model.finish() folded end to end for every logic: every world of the access relation -- the ones a frame condition adds '
+                            'included -- has a frame, and every frame lists every letter / opaque / predicate of the model; so the export covers what evaluation reads '
+                            'and does not change by evaluating')
+    n = common.finish_folds(ctx, rep, R4, 'C20.R4')
+    rep.floor('C20.R4', 'finish pre-states', n, 500)
